@@ -28,7 +28,7 @@ class Spec(MQSpec):
         interval = ch.pick('gen', [1, 2, 5, 10])
         ratio = ch.pick('gen', [3, 0.3, 1, 8])
         t_ms = max(400, int(interval * ratio * 1000))
-        sc['lineage'] = {'interval_s': interval}
+        sc['lineage'] = {'interval_s': interval, 'emit_latency_ms': ch.pick('gen', [0, 1, 40, 300, 700])}
         if self.tier == 'thorough' and ch.chance('gen', 1, 3):
             sc['lineage']['line_preempt'] = True       # line-granularity interleaving inside lineage.py
         sc['t_cause_ms'] = t_ms
